@@ -256,9 +256,31 @@ def _worker_chunk(arg):
     return idx, agg
 
 
+def _worker_init():
+    # workers must die on Pool.terminate(): the runner's SIGTERM handler (sys.exit -> scratch cleanup) is for the master only
+    import signal
+    signal.signal(signal.SIGTERM, signal.SIG_DFL)
+    signal.signal(signal.SIGINT, signal.SIG_IGN)
+
+
+STALL_S = float(os.environ.get("SVMC_STALL_S", "3600"))
+
+
+def _drain(it):
+    """collect results of an imap iterator; a worker that died (or hangs) must not hang the check forever."""
+    out = []
+    while True:
+        try:
+            out.append(it.next(timeout=STALL_S))
+        except StopIteration:
+            return out
+        except mp.TimeoutError:
+            raise HarnessError(f"no result from the worker pool for {STALL_S:.0f} s (a worker died or hangs)")
+
+
 def _pool():
     ctx = mp.get_context("fork")
-    return ctx.Pool(WORKERS)
+    return ctx.Pool(WORKERS, initializer=_worker_init)
 
 
 class CaseStage(Stage):
@@ -296,8 +318,7 @@ class CaseStage(Stage):
                 results.append(_worker_chunk(c))
         else:
             with _pool() as pool:
-                for r in pool.imap_unordered(_worker_chunk, chunks):
-                    results.append(r)
+                results = _drain(pool.imap_unordered(_worker_chunk, chunks))
         results.sort(key=lambda r: r[0])
         for _, agg in results:
             self.agg.merge(agg, disjoint=self.disjoint)
@@ -431,7 +452,7 @@ class ExploreStage(Stage):
                 results = [_worker_subtree(t) for t in tasks]
             else:
                 with _pool() as pool:
-                    results = list(pool.imap_unordered(_worker_subtree, tasks, chunksize=max(1, len(tasks) // (WORKERS * 16))))
+                    results = _drain(pool.imap_unordered(_worker_subtree, tasks, chunksize=max(1, len(tasks) // (WORKERS * 16))))
         results.sort(key=lambda r: r[0])
         for _, agg in results:
             self.agg.merge(agg)
@@ -517,7 +538,7 @@ class BfsStage(Stage):
                 results = [_worker_bfs(c) for c in chunks]
             else:
                 with _pool() as pool:
-                    results = list(pool.imap_unordered(_worker_bfs, chunks))
+                    results = _drain(pool.imap_unordered(_worker_bfs, chunks))
             results.sort(key=lambda r: r[0])
             nxt = []
             for _, agg, out in results:
